@@ -270,6 +270,29 @@ def lattice(model, quick):
                             e2 = guard("empty_structured_array[dtype]", lambda: lp.empty_structured_array(n, dtype=dt, non_sampling_parameters=nsp))
                             if e2 is not None:
                                 check_lp(e2, names, nanmat, model, nsp, f"empty_structured_array[dtype,{tag}]", errs)
+                            # the same fields in another order (a dtype built by the user or taken while the
+                            # registry held its extra fields in another order): defaults go by NAME
+                            if nsp and n > 0:
+                                allf = list(dt.names)
+                                nons = allf[len(names):]
+                                for pname, order in (("non-sampling-reversed", list(names) + nons[::-1]), ("all-reversed", allf[::-1]), ("non-sampling-first", nons + list(names))):
+                                    if order == allf:
+                                        continue
+                                    pdt = np.dtype([(f, dt.fields[f][0]) for f in order])
+                                    w_ = f"empty_structured_array[dtype:{pname},{tag}]"
+                                    e3 = guard(w_, lambda: lp.empty_structured_array(n, dtype=pdt, non_sampling_parameters=nsp))
+                                    if e3 is None:
+                                        continue
+                                    if list(e3.dtype.names) != order:
+                                        errs.append((f"{w_}:field-order", f"{e3.dtype.names}"))
+                                        continue
+                                    want = {"logP": np.nan, "logL": np.nan, "it": 0.0}
+                                    want.update({nm_: dv_ for nm_, dv_ in zip(model.names, model.defaults)})
+                                    want.update({nm_: np.nan for nm_ in names})
+                                    for f in order:
+                                        if bits(np.asarray(e3[f], dtype=float)) != bits(np.full(n, want[f], dtype=float)):
+                                            errs.append((f"{w_}:defaults-not-assigned-by-name", f"{f}: {e3[f]!r} expected {want[f]!r}"))
+                                            break
                     # zero-copy views
                     if a is not None and n > 0:
                         for k in sorted({1, d}):
